@@ -83,7 +83,9 @@ def check_smc(out, res, run_, wl, spec, calls):
     if len(pops) != len(thr):
         out.violate('pop-count', '', populations=len(pops), rounds=len(thr))
         return
-    n_samples = wl['n_samples']
+    n_per_round = []
+    for (n, obj) in calls:
+        n_per_round += [n] * len(list(obj.values())[0])
     per_round = collections.defaultdict(list)
     ok_calls = len(calls)
     consumed = [(x, r) for x, r in zip(run_.consumed, run_.rounds) if x[0] <= ok_calls]
@@ -91,6 +93,7 @@ def check_smc(out, res, run_, wl, spec, calls):
         per_round[r].append(b)
     total_batches = 0
     for r, pop in enumerate(pops):
+        n_samples = n_per_round[r]
         outs = pop.outputs
         onames = sorted(outs)
         for k in onames:
@@ -188,7 +191,10 @@ def run(tape, kind):
         key = list(wl['objective'])[0]
         nxt = [wl['objective'][key][-1]] if key == 'thresholds' else \
             [tape.choice('q2', [0.5, 0.7, 0.3])]
-        calls.append((wl['n_samples'], {key: nxt}))
+        # the continued call may ask for another population size
+        n2 = tape.choice('n_samples_2', [wl['n_samples'], wl['n_samples'], wl['n_samples'] + 3,
+                                         max(2, wl['n_samples'] - 2)])
+        calls.append((n2, {key: nxt}))
     sched = sr.gen_schedule(tape)
     out.sample = {'spec': sp.describe_spec(spec), 'workload': wl, 'calls': len(calls),
                   'schedule': sched}
